@@ -127,6 +127,23 @@ def run_ops(ops, env):
             except FailedExperiment:
                 env["rec"].setdefault("waitxp", []).append("failed")
             V.W.events.append(("waitxp",))
+        elif k == "thread":
+            # a second user thread of the same process (e.g. a callback of the task-outputs worker) running its own ops
+            def body(ops=op["body"], env=env):
+                try:
+                    run_ops(ops, env)
+                except Exception as e:  # noqa
+                    env["rec"].setdefault("thread_exc", []).append(f"{type(e).__name__}: {e}"[:200])
+            actor = V.HUB.spawn(f"thread:user:{op['var']}", body, kind="thread")
+            env.setdefault("threads", {})[op["var"]] = actor
+        elif k == "join":
+            a = env["threads"][op["var"]]
+            V.HUB.block_on(lambda: a.dead)
+        elif k == "same":
+            # two submissions of identical configurations (possibly from two threads): both must have got one output
+            oa, ob = env["vars"].get(op["a"], "<none>"), env["vars"].get(op["b"], "<none>")
+            env["rec"]["dups"].append({"var": op["b"], "of": op["a"], "same_output": oa is ob and oa is not None, "same_job": True,
+                                       "after_fail": False, "outputs": [type(oa).__name__, type(ob).__name__]})
         elif k == "raise":
             raise Boom()
         elif k == "index":
